@@ -10,9 +10,11 @@ import (
 	"bytes"
 	"encoding/binary"
 	"io"
+	"math"
 	"os"
 	"path"
 	"strings"
+	"time"
 )
 
 // handleCreate handles NFSPROC3_CREATE - create a file
@@ -46,8 +48,10 @@ func (h *NFSProcedureHandler) handleCreate(body io.Reader, reply *RPCReply, auth
 	newUID := authCtx.EffectiveUID
 	newGID := authCtx.EffectiveGID
 	var isExclusive bool
+	var sattr sattr3
+	var verf [8]byte
 	if createHow == 0 || createHow == 1 {
-		sattr, err := decodeSattr3(body)
+		sattr, err = decodeSattr3(body)
 		if err != nil {
 			return nfsErrorWithWcc(reply, GARBAGE_ARGS), nil
 		}
@@ -63,7 +67,6 @@ func (h *NFSProcedureHandler) handleCreate(body io.Reader, reply *RPCReply, auth
 		}
 	} else if createHow == 2 {
 		// M14: Use io.ReadFull for the 8-byte EXCLUSIVE verifier
-		var verf [8]byte
 		if _, err := io.ReadFull(body, verf[:]); err != nil {
 			return nfsErrorWithWcc(reply, GARBAGE_ARGS), nil
 		}
@@ -83,6 +86,58 @@ func (h *NFSProcedureHandler) handleCreate(body io.Reader, reply *RPCReply, auth
 	dirPreAttrs, err := h.server.handler.GetAttr(node)
 	if err != nil {
 		return nfsErrorWithWcc(reply, mapError(err)), nil
+	}
+
+	// The name may be taken already. Create() opens with truncation, so it must
+	// only run for a name that does not exist: an existing object is never
+	// rewritten by CREATE (RFC 1813 section 3.3.8).
+	lookupPath := path.Join(node.path, name)
+	if info, statErr := h.server.handler.fs.Lstat(lookupPath); statErr == nil {
+		status := uint32(NFS_OK)
+		switch {
+		case createHow == 1 || !info.Mode().IsRegular():
+			status = NFSERR_EXIST
+		case isExclusive && !h.server.handler.sameExclusiveCreate(lookupPath, verf, info):
+			status = NFSERR_EXIST
+		case !isExclusive && sattr.SetSize:
+			// UNCHECKED over an existing file: the only attribute applied is an explicit size
+			if sattr.Size > uint64(math.MaxInt64) {
+				status = NFSERR_INVAL
+			} else if err := h.server.handler.fs.Truncate(lookupPath, int64(sattr.Size)); err != nil {
+				status = mapError(err)
+			}
+			h.server.handler.attrCache.Invalidate(lookupPath)
+		}
+		var existingNode *NFSNode
+		if status == NFS_OK {
+			var lookupErr error
+			if existingNode, lookupErr = h.server.handler.Lookup(lookupPath); lookupErr != nil {
+				status = mapError(lookupErr)
+			}
+		}
+		dirPostAttrs, _ := h.server.handler.GetAttr(node)
+		if dirPostAttrs == nil {
+			dirPostAttrs = dirPreAttrs
+		}
+		var buf bytes.Buffer
+		xdrEncodeUint32(&buf, status)
+		if status == NFS_OK {
+			handle := h.server.handler.fileMap.Allocate(existingNode)
+			existingNode.mu.RLock()
+			existingAttrsCopy := *existingNode.attrs
+			existingNode.mu.RUnlock()
+			xdrEncodeUint32(&buf, 1)
+			xdrEncodeFileHandle(&buf, handle)
+			xdrEncodeUint32(&buf, 1)
+			if err := encodeFileAttributes(&buf, &existingAttrsCopy); err != nil {
+				return nfsErrorWithWcc(reply, NFSERR_IO), nil
+			}
+		}
+		if err := encodeWccData(&buf, dirPreAttrs, dirPostAttrs); err != nil {
+			return nfsErrorWithWcc(reply, NFSERR_IO), nil
+		}
+		reply.Data = buf.Bytes()
+		return reply, nil
 	}
 
 	attrs := &NFSAttrs{
@@ -137,6 +192,10 @@ func (h *NFSProcedureHandler) handleCreate(body io.Reader, reply *RPCReply, auth
 		return reply, nil
 	}
 
+	if isExclusive {
+		h.server.handler.rememberExclusiveCreate(newNode.path, verf)
+	}
+
 	dirPostAttrs, err := h.server.handler.GetAttr(node)
 	if err != nil {
 		return nfsErrorWithWcc(reply, mapError(err)), nil
@@ -163,6 +222,45 @@ func (h *NFSProcedureHandler) handleCreate(body io.Reader, reply *RPCReply, auth
 
 	reply.Data = buf.Bytes()
 	return reply, nil
+}
+
+// exclusiveCreate remembers which verifier created a file, and the file's
+// modification time right after, so that a later EXCLUSIVE CREATE of the same
+// name can be told apart from a retransmission of this one.
+type exclusiveCreate struct {
+	verf  [8]byte
+	mtime time.Time
+}
+
+// maxExclusiveCreates bounds the table of remembered EXCLUSIVE CREATE verifiers
+const maxExclusiveCreates = 1024
+
+func (s *AbsfsNFS) rememberExclusiveCreate(p string, verf [8]byte) {
+	info, err := s.fs.Lstat(p)
+	if err != nil {
+		return
+	}
+	s.exclusiveMu.Lock()
+	defer s.exclusiveMu.Unlock()
+	if s.exclusiveCreates == nil || len(s.exclusiveCreates) >= maxExclusiveCreates {
+		s.exclusiveCreates = make(map[string]exclusiveCreate)
+	}
+	s.exclusiveCreates[p] = exclusiveCreate{verf: verf, mtime: info.ModTime()}
+}
+
+// sameExclusiveCreate reports whether an EXCLUSIVE CREATE with this verifier over
+// the existing file at p is to be answered as a retransmission. A file this
+// server remembers creating exclusively, and that was not modified since, only
+// accepts the verifier that created it; any other file keeps the historical
+// behaviour of being accepted.
+func (s *AbsfsNFS) sameExclusiveCreate(p string, verf [8]byte, info os.FileInfo) bool {
+	s.exclusiveMu.Lock()
+	defer s.exclusiveMu.Unlock()
+	made, ok := s.exclusiveCreates[p]
+	if !ok || !made.mtime.Equal(info.ModTime()) {
+		return true
+	}
+	return made.verf == verf
 }
 
 // handleMkdir handles NFSPROC3_MKDIR - create a directory
